@@ -223,7 +223,7 @@ func (c *Ctx) Sharded(n int, onCrash func(ci CrashInfo, s *Stats), args ...strin
 			defer wg.Done()
 			resume := ""
 			for attempt := 0; ; attempt++ {
-				pf, _ := os.CreateTemp(filepath.Join(Root, "bin"), "progress-*.tmp")
+				pf, _ := os.CreateTemp(BinDir(), "progress-*.tmp")
 				pf.Close()
 				a := append([]string{"worker", c.ID, c.Tier, strconv.Itoa(shard), strconv.Itoa(n)}, args...)
 				cmd := exec.Command(self, a...)
@@ -262,6 +262,23 @@ func (c *Ctx) Sharded(n int, onCrash func(ci CrashInfo, s *Stats), args ...strin
 	}
 	wg.Wait()
 	return total
+}
+
+// OutDir is where evidence/ and replays/ are written (VERIF_OUT overrides it
+// for runs against mutated copies, so that they do not clobber real evidence).
+func OutDir() string {
+	if d := os.Getenv("VERIF_OUT"); d != "" {
+		return d
+	}
+	return Root
+}
+
+// BinDir is where build outputs and scratch files of this run live.
+func BinDir() string {
+	if d := os.Getenv("VERIF_BIN"); d != "" {
+		return d
+	}
+	return filepath.Join(Root, "bin")
 }
 
 func tail(s string, n int) string {
@@ -310,20 +327,28 @@ type Finding struct {
 	Key      string `json:"key"`
 	What     string `json:"what"`
 	Fixed    string `json:"fixed,omitempty"` // "fixed: property=<id> <commit> <what>" entries suppress nothing
+	Prefix   bool   `json:"prefix,omitempty"` // Key names a call site: it matches every case key that starts with it
 }
 
 func loadFindings() []Finding {
-	b, err := os.ReadFile(filepath.Join(Root, "known_findings.json"))
-	if err != nil {
-		return nil
+	var all []Finding
+	paths := []string{filepath.Join(Root, "known_findings.json")}
+	more, _ := filepath.Glob(filepath.Join(Root, "findings.d", "*.json"))
+	paths = append(paths, more...)
+	for _, p := range paths {
+		b, err := os.ReadFile(p)
+		if err != nil {
+			continue
+		}
+		var f struct {
+			Findings []Finding `json:"findings"`
+		}
+		if err := json.Unmarshal(b, &f); err != nil {
+			Fatal("%s: %v", p, err)
+		}
+		all = append(all, f.Findings...)
 	}
-	var f struct {
-		Findings []Finding `json:"findings"`
-	}
-	if err := json.Unmarshal(b, &f); err != nil {
-		Fatal("known_findings.json: %v", err)
-	}
-	return f.Findings
+	return all
 }
 
 // ---------------------------------------------------------------------------
@@ -420,9 +445,9 @@ func Main() {
 func runCheck(p *Prop, tier string) int {
 	start := time.Now()
 	c := &Ctx{ID: p.ID, Tier: tier, Seed: seed(), NShards: 1, Deadline: start.Add(budget(p, tier))}
-	os.MkdirAll(filepath.Join(Root, "bin"), 0o755)
-	os.MkdirAll(filepath.Join(Root, "replays"), 0o755)
-	os.MkdirAll(filepath.Join(Root, "evidence"), 0o755)
+	os.MkdirAll(BinDir(), 0o755)
+	os.MkdirAll(filepath.Join(OutDir(), "replays"), 0o755)
+	os.MkdirAll(filepath.Join(OutDir(), "evidence"), 0o755)
 	st := p.Run(c)
 
 	// Deduplicate violations by key.
@@ -438,23 +463,39 @@ func runCheck(p *Prop, tier string) int {
 
 	findings := loadFindings()
 	known := map[string]Finding{}
+	var knownPrefix []Finding
 	for _, f := range findings {
 		if f.Property == p.ID && f.Fixed == "" {
-			known[f.Key] = f
+			if f.Prefix {
+				knownPrefix = append(knownPrefix, f)
+			} else {
+				known[f.Key] = f
+			}
 		}
+	}
+	lookupKnown := func(key string) (Finding, bool) {
+		if f, ok := known[key]; ok {
+			return f, true
+		}
+		for _, f := range knownPrefix {
+			if strings.HasPrefix(key, f.Key) {
+				return f, true
+			}
+		}
+		return Finding{}, false
 	}
 	nviol, nknown := 0, 0
 	self, _ := os.Executable()
 	var knownHit []string
 	for _, v := range viols {
-		if f, ok := known[v.Key]; ok {
+		if f, ok := lookupKnown(v.Key); ok {
 			fmt.Printf("KNOWN-FINDING: property=%s %s [%s]\n", p.ID, f.What, v.Key)
 			knownHit = append(knownHit, v.Key)
 			nknown++
 			continue
 		}
 		sum := sha256.Sum256([]byte(v.Key))
-		path := filepath.Join(Root, "replays", p.ID+"-"+hex.EncodeToString(sum[:6])+".json")
+		path := filepath.Join(OutDir(), "replays", p.ID+"-"+hex.EncodeToString(sum[:6])+".json")
 		b, _ := json.MarshalIndent(v, "", " ")
 		os.WriteFile(path, b, 0o644)
 		// Re-execute from the replay file in fresh processes before believing it.
@@ -552,5 +593,5 @@ func writeEvidence(p *Prop, c *Ctx, st *Stats, start time.Time, nviol int, known
 		"violations":  nviol,
 	}
 	b, _ := json.MarshalIndent(ev, "", " ")
-	os.WriteFile(filepath.Join(Root, "evidence", p.ID+".json"), append(b, '\n'), 0o644)
+	os.WriteFile(filepath.Join(OutDir(), "evidence", p.ID+".json"), append(b, '\n'), 0o644)
 }
